@@ -43,8 +43,10 @@ pub fn run(ctx: &mut Ctx) {
             }
         }
         // reference universe: no restore
+        // every universe executes the script with the SAME random stream (garbage bytes, bit positions ...)
+        let rng_exec = rng.clone();
         let mut a = base.fork();
-        let mut rng_a = rng.clone();
+        let mut rng_a = rng_exec.clone();
         for op in &ops { a.exec(op, &mut rng_a); }
         // variants: every single boundary (quick: sampled), and random subsets
         let mut variants: Vec<Vec<usize>> = vec![];
@@ -55,7 +57,7 @@ pub fn run(ctx: &mut Ctx) {
         variants.push((0..=ops.len()).collect());
         for restore_at in variants {
             let mut b = base.fork();
-            let mut rng_b = rng.clone();
+            let mut rng_b = rng_exec.clone();
             let mut mops = b.prefix_ops();
             let mut raw_len_at_restore = vec![];
             for (j, op) in ops.iter().enumerate() {
@@ -73,6 +75,7 @@ pub fn run(ctx: &mut Ctx) {
                 && a.dev.stringify().ok() == b.dev.stringify().ok()
                 && a.rdr.stringify().ok() == b.rdr.stringify().ok();
             let first_diff = a.raw.iter().zip(b.raw.iter()).position(|(x, y)| x != y);
+            if std::env::var("VERIF_DEBUG").is_ok() { if let Some(i) = first_diff { eprintln!("DIFF at {i}:\nA={}\nB={}", String::from_utf8_lossy(&a.raw[i]).chars().take(1500).collect::<String>(), String::from_utf8_lossy(&b.raw[i]).chars().take(1500).collect::<String>()); } }
             let desc = json!({"docs_held": ndocs, "ops": ops.iter().map(|o| format!("{o:?}")).collect::<Vec<_>>(), "restore_before_op": restore_at,
                               "first_differing_output": first_diff, "outputs": a.raw.len()});
             ctx.case("differential", desc, ciborium::Value::Bool(same),
